@@ -475,6 +475,13 @@ class CodecsFacade:
         except LookupError:
             return False
 
+    def lookup(self, name):
+        if isinstance(name, SymStr):
+            if not name.is_concrete():
+                raise Unsupported('codecs.lookup of a symbolic encoding name')
+            name = name.concrete()
+        return _codecs.lookup(name)
+
     def getdecoder(self, encoding):
         real = _codecs.getdecoder(encoding)
         if not self._modelled(encoding):
